@@ -1070,6 +1070,14 @@ def decode (fl : Flags) (env : Env) : Schema → Val → R
       later := fr.later
       vfail := fr.vfail }
   | .struct fs, _ => R.fail (keep false (.struct fs)).val .type
+  | .ptr n s, .str str =>
+    -- the hook chain runs on the POINTER target first (kind Ptr): `VariableInjectHook` resolves the text there, and a
+    -- lone placeholder has no castable kind (`confutil.cast`: "unsupported kind") — also when the pointee is a scalar
+    match injectOther env str with
+    | .error e => R.fail (keep false (.ptr n s)).val e
+    | .ok _ =>
+      let r := decode fl env s (.str str)
+      { r with val := .ptr r.val }
   | .ptr _ s, v =>
     let r := decode fl env s v
     { r with val := .ptr r.val }
